@@ -15,7 +15,7 @@ RULE = ("seeded designs with 1-3 continuous factors (built-in distributions draw
         "with >=1 dependent or constrained factor; distinct = (continuous skeleton, r)")
 ASSUMPTIONS = ["custom functions are deterministic given their inputs (plus scripted noise for non-dependent ones)",
                "built-in distributions are driven through the scripted PRNG: script value u in [0,1) maps monotonically to the sample"]
-BUDGET = {"quick": 40, "thorough": 900}
+BUDGET = {"quick": 300, "thorough": 900}
 RUNS = {"quick": 3000, "thorough": 380000}
 
 
